@@ -14,7 +14,10 @@ PROP = dict(
                     "sub-tree views (1600 / 40k one-history processes) and a private C++ config::root (8k / 300k histories).  After every "
                     "mutating operation every universe entry is queried: value must be byte-equal to the last assignment, absent where the "
                     "model has none, existence must match the prefix-closed node set.  Path leg (120k / 2M cases): mpt_path_set + walk with "
-                    "mpt_path_next / mpt_path_last against split(sep); rebuild with addchar/valid/add and mpt_path_del in text and binary mode.  "
+                    "mpt_path_next / mpt_path_last against split(sep); rebuild with addchar/valid/add and mpt_path_del in text and binary mode; the "
+                    "parser's protocol with characters that are not kept (0..3 blanks before / inside / after names, trailing characters left "
+                    "pending, mpt_path_invalidate, mpt_path_del, shared copies of the path data) against a model of pending bytes and keep mark, "
+                    "element lengths aimed at the allocation steps of the path buffer (used == size, +-1).  "
                     "Exploration, not proof."),
         level_note=("trusts the map model in harness/c10_global.c / c10_cxx.cpp and the split model in c10_path.c, gcc ASan/UBSan/LSan; "
                     "values of >= 250 bytes may be refused by the value storage (other properties), a refusal must leave the map unchanged"),
@@ -24,7 +27,12 @@ PROP = dict(
                            "elements:empty": 10000, "elements:len254": 1000, "elements:len255": 1000, "elements:len256": 1000,
                            "elements:len257": 1000, "state:binary-mode": 10000, "state:last-after-next": 30000,
                            "state:set-explicit-length": 5000, "state:set-end-delimiter": 5000, "outcome:add-refused": 3000,
-                           "monitor:element-compares": 300000, "monitor:last-compares": 100000}),
+                           "monitor:element-compares": 300000, "monitor:last-compares": 100000,
+                           "mpt_path_valid": 3000000, "mpt_path_invalidate": 30000, "outcome:pending-char-replaced": 150000,
+                           "state:addchar-at-allocation-step": 50000, "state:pending-char-at-allocation-step": 10000,
+                           "state:invalidate-exactly-full": 1000, "state:trailing-characters-left": 40000,
+                           "state:shared-copy": 10000, "monitor:shared-copy-walks": 40000,
+                           "monitor:parser-protocol-walks": 200000}),
               dict(name="c10_global", src=["c10_global.c"], libs=["mptcore"], batch=1, lsan=True,
                    floors={"mpt_config_set:assign": 30000, "mpt_config_set:remove": 10000, "mpt_config_set:clear": 1000,
                            "mpt_config_global:view": 2000, "view:assign": 10000, "view:remove": 5000, "view:node-conversion": 1000,
@@ -50,7 +58,8 @@ PROP = dict(
                            "state:refused-on-absent-path": 30000, "state:refused-with-absent-intermediate": 15000,
                            "monitor:value-compares": 2000000, "monitor:absence-compares": 2000000,
                            "monitor:existence-compares": 5000000})],
-        rule=("case = (path leg) one generated path string of 1..6 elements set and walked, or one build/delete history of 4..17 steps; "
+        rule=("case = (path leg) one generated path string of 1..6 elements set and walked, one build/delete history of 4..17 steps, or one "
+              "parser-protocol history of 5..18 steps (non-trivial: >= 2 elements added, at least one aimed at an allocation step); "
               "(store legs) one history over a fresh universe as described in level_text.  non-trivial = (set) >= 3 elements or an element "
               "of >= 254 bytes; (rebuild) >= 3 elements added and >= 1 deleted; (store) >= 10 accepted assignments, >= 3 removals and "
               ">= 2 overwrites of an existing value; distinct = 64-bit hash of names, operations, paths, separators and values"),
